@@ -168,11 +168,18 @@ func jwtMutations(r *kit.Rand, b jwtBase, cfg jwtCfg, now int64) []jwtSpec {
 		{"exp-removed", "exp", nil, true}, {"exp-future-2m", "exp", num(now + 120), false}, {"exp-far-future", "exp", json.Number("1000000000000"), false},
 		{"nbf-past-2m", "nbf", num(now - 120), false}, {"iat-past-2m", "iat", num(now - 120), false}, {"nbf-negative", "nbf", num(-5), false},
 		{"exp-future-float", "exp", json.Number(strconv.FormatInt(now+600, 10) + ".5"), false},
+		// whole seconds close to (never on) the edge: jwt.TimeFunc is the harness's fixed clock, so
+		// these are exact; they catch a leeway / unit slip of a few seconds
+		{"exp-past-5s", "exp", num(now - 5), false}, {"exp-past-30s", "exp", num(now - 30), false}, {"exp-future-5s", "exp", num(now + 5), false},
+		{"nbf-future-5s", "nbf", num(now + 5), false}, {"nbf-future-30s", "nbf", num(now + 30), false}, {"nbf-past-5s", "nbf", num(now - 5), false},
+		{"iat-future-5s", "iat", num(now + 5), false}, {"iat-past-5s", "iat", num(now - 5), false},
+		{"exp-millis-future", "exp", num((now + 600) * 1000), false}, {"nbf-millis-past", "nbf", num((now - 600) * 1000), false},
 	}
 	for _, t := range tcs {
 		pj := withClaim(b.claims, t.k, t.v, t.del)
 		s := jwtSpec{Kind: "time/" + t.name, Detail: b.alg, Auth: bearer(signTok(b.hJSON, pj, b.alg, b.key))}
-		if t.name == "exp-future-2m" || t.name == "nbf-past-2m" || t.name == "iat-past-2m" {
+		switch t.name {
+		case "exp-future-2m", "nbf-past-2m", "iat-past-2m", "exp-future-5s", "nbf-past-5s", "iat-past-5s":
 			s.Must = b.boring
 		}
 		out = append(out, s)
